@@ -112,6 +112,11 @@ func varKey(v *types.Var) string {
 }
 
 func loadWorld(repo string) (*World, error) {
+	// go/packages looks `go` up through this process's PATH: the newer pre-installed toolchain
+	// must come first (the default one cannot load a go 1.26 workspace with GOTOOLCHAIN=local).
+	if !strings.HasPrefix(os.Getenv("PATH"), "/opt/veriftools/go1.26.8/bin:") {
+		os.Setenv("PATH", "/opt/veriftools/go1.26.8/bin:"+os.Getenv("PATH"))
+	}
 	env := []string{}
 	for _, e := range os.Environ() {
 		if strings.HasPrefix(e, "GOFLAGS=") || strings.HasPrefix(e, "GOWORK=") {
